@@ -102,6 +102,13 @@ def gen_cases(pid, tier, rng):
                 if w == 'FB': continue
                 for sc in [[]] + rng.sample(scheds, min(len(scheds), 3)):
                     cases.append((w + 'c', [text], sc))
+    # buffers filled by a user's own ToHtml with bytes that are not UTF-8 (Latin-1 text, a character cut in half), with markup next to them
+    if pid != "C02":
+        for rawp in ([b"<b>caf\xe9</b> &amp;"], [b"\xff"], [b"a\xc3", b"\xa9b"], [b"\xe2\x82"], [b"<\x80>&\"'"], [b"ok <i>", b"\xf0\x9f", b"</i>"], [b"\xc0\xaf<"], [b"plain &lt; text"], [b"\xed\xa0\x80&"]):
+            ps = [p.decode("utf8", "surrogateescape") for p in rawp]
+            nb = sum(len(p) for p in rawp)
+            for sc in [[], ['a1'] * (nb + 2), ['a2', 'i', 'a1000'], ['a1', 'f9'], ['a3', 'w7']]:
+                cases.append(('RB', ps, sc))
     # renderings and buffers beyond 1 KiB / 4 KiB / 8 KiB, with special characters in them, alone and one after another
     # (scratch buffers, piecewise writes); a small value right after a large one
     big = []
@@ -119,12 +126,14 @@ def gen_cases(pid, tier, rng):
 
 def line_of(case):
     w, ps, sc = case
-    return "%s %s %s" % (w, ",".join(hexs(p.encode()) for p in ps) if ps else "-", sched_str(sc))
+    return "%s %s %s" % (w, ",".join(hexs(p.encode("utf8", "surrogateescape")) for p in ps) if ps else "-", sched_str(sc))
 
 def model_line_of(case):
     """Model/Io.v knows pieces, not how the Display impl hands them over: a value written char by char is the value whose pieces are its chars"""
     w, ps, sc = case
     if w.endswith('c'): return line_of((w[:-1], [ch for p in ps for ch in p], sc))
+    # a buffer filled with raw bytes by a user's ToHtml is, for the model, the buffer of an Html(..) value with those bytes
+    if w == 'RB': return line_of(('HB', ps, sc))
     return line_of(case)
 
 def expected_text(case):
@@ -135,7 +144,7 @@ def oracle(case, out, full):
     Returns None or a description of the failure."""
     w, ps, sc = case
     w = w.rstrip('c')
-    text = expected_text(case).encode()
+    text = expected_text(case).encode("utf8", "surrogateescape")
     f = out.split(' ')
     if f[0] == 'PANIC' or len(f) < 2: return "panic / malformed result " + out
     lg = unhexs(f[0]); res = f[1]
@@ -155,6 +164,8 @@ def oracle(case, out, full):
         if dec != text: return "decoding the output does not give back the Display text"
     if w in ('H', 'HB'):
         if full != text: return "Html(..) output differs from the Display text"
+    if w == 'RB':
+        if full != text: return "a buffer does not give back verbatim, once, the bytes that were written into it"
     if len(f) >= 4:
         buf = unhexs(f[2])
         if buf != full and not sc: return "to_buffer differs from what to_html writes"
@@ -182,12 +193,24 @@ def template_level(chk, oracle_fail, disagree, tier):
     T = []
     for i, (src, f) in enumerate(exprs):
         T.append(("e%d_html" % i, (head + "|@" + src + "|").encode(), ["|" + esc(f(a)) + "|" for a in ARGSETS]))
+    # the same expressions where the emitter might take another route: alone in a block argument of a call, in the
+    # branches of a conditional, in a loop body, as a parenthesised expression
+    from tmpl_gen import WRAP_SRC
+    ctx_exprs = [e for e in exprs if e[0] in ("s", "&s", 'format!("<{}>", s)', '"<script>alert(1)</script>"', '"a\\x3cb"', '(if b { "<&>" } else { "\\"" })')]
+    for i, (src, f) in enumerate(ctx_exprs):
+        one = "@" + src if not src.startswith("(") else "@" + src
+        par = "@(" + src + ")"
+        T.append(("k%da_html" % i, ("@use super::wrap_html;\n" + head + "|@:wrap_html(n, {" + one + "}, {" + par + "})|").encode(),
+                  ["|[%d|%s|%s]|" % (a["n"], esc(f(a)), esc(f(a))) for a in ARGSETS]))
+        T.append(("k%db_html" % i, (head + "|@if b {" + one + "} else {" + par + "}@for _x in xs {" + one + "}|").encode(),
+                  ["|" + esc(f(a)) * (1 + len(a["xs"])) + "|" for a in ARGSETS]))
     named = [(n, s0) for n, s0, _ in T]
     impl, model = tmpl_checks.compile_pairs(named)
     for (n, s0, _), a, m in zip(T, impl, model):
         chk.count(s0, True)
         if a != m: disagree.append((("T", [s0.decode("utf8", "replace")], []), a[:400], m[:400]))
     files = {"t/%s.rs.html" % n[:-5]: s0 for n, s0, _ in T}
+    files["t/wrap.rs.html"] = WRAP_SRC.encode()
     calls = [("templates::%s(&mut sink, %s)" % (n, rust_args(a)), "-") for n, _, _ in T for a in ARGSETS]
     rb = render_lib.render_batch(files, calls)
     # the helper is copied verbatim into OUT_DIR
@@ -232,7 +255,7 @@ def run(pid, tier):
     disagree = []; oracle_fail = []
     hist = {}
     for c, a, m in zip(cases, impl, model):
-        text = expected_text(c).encode()
+        text = expected_text(c).encode("utf8", "surrogateescape")
         nontriv = any(ch in SPECIAL for ch in text) and (len(c[1]) > 1 or c[2])
         chk.count(line_of(c).encode(), nontriv)
         r = a.split(' ')[1] if ' ' in a else a
